@@ -820,6 +820,7 @@ type ownSite struct {
 	node      ast.Node
 	verdict   string
 	detail    string
+	sliceArg  ast.Expr // MUT.view: the cell slice put under the new header
 }
 
 // inPlaceOnBorrowed: the site was justified by a guard on a value the function
@@ -935,24 +936,24 @@ func (c *Ctx) ownSites(u FuncUnit) []ownSite {
 					if f != nil && lvalFields[f] && f != sealedFld {
 						construct := ord.next("store ." + f.Name())
 						if ok, why := ownerOK(se.X, s, st); ok {
-							sites = append(sites, ownSite{"MUT.field", construct, s, Proved, why})
+							sites = append(sites, ownSite{"MUT.field", construct, s, Proved, why, nil})
 						} else {
 							sites = append(sites, ownSite{"MUT.field", construct, s, Undecided,
-								"writes field " + f.Name() + " of " + types.ExprString(se.X) + ", which this function did not allocate, with no dominating test that it is unsealed or of a never-sealed type: a parsed program node shared by every runtime could be modified"})
+								"writes field " + f.Name() + " of " + types.ExprString(se.X) + ", which this function did not allocate, with no dominating test that it is unsealed or of a never-sealed type: a parsed program node shared by every runtime could be modified", nil})
 						}
 					}
 				}
 				// S[i] = ...
 				if ie, ok := l.(*ast.IndexExpr); ok && isCellSlice(ie.X) && isSortSwap(u) {
-					sites = append(sites, ownSite{"MUT.elem", ord.next("sort.Interface Swap"), s, Proved, "sort adapter method: the slice is checked where the adapter is handed to sort.* (MUT.elem at that call)"})
+					sites = append(sites, ownSite{"MUT.elem", ord.next("sort.Interface Swap"), s, Proved, "sort adapter method: the slice is checked where the adapter is handed to sort.* (MUT.elem at that call)", nil})
 					continue
 				}
 				if ie, ok := l.(*ast.IndexExpr); ok && isCellSlice(ie.X) {
 					construct := ord.next("store element of " + exprShape(info, ie.X))
 					if ok, why := sliceOK(ie.X, s, st, false); ok {
-						sites = append(sites, ownSite{"MUT.elem", construct, s, Proved, why})
+						sites = append(sites, ownSite{"MUT.elem", construct, s, Proved, why, nil})
 					} else {
-						sites = append(sites, ownSite{"MUT.elem", construct, s, Undecided, "writes an element of a cell slice: " + why})
+						sites = append(sites, ownSite{"MUT.elem", construct, s, Undecided, "writes an element of a cell slice: " + why, nil})
 					}
 				}
 			}
@@ -962,9 +963,9 @@ func (c *Ctx) ownSites(u FuncUnit) []ownSite {
 				if f != nil && lvalFields[f] {
 					construct := ord.next("store ." + f.Name())
 					if ok, why := ownerOK(se.X, s, st); ok {
-						sites = append(sites, ownSite{"MUT.field", construct, s, Proved, why})
+						sites = append(sites, ownSite{"MUT.field", construct, s, Proved, why, nil})
 					} else {
-						sites = append(sites, ownSite{"MUT.field", construct, s, Undecided, "in-place update of field " + f.Name() + " of a value this function did not allocate"})
+						sites = append(sites, ownSite{"MUT.field", construct, s, Undecided, "in-place update of field " + f.Name() + " of a value this function did not allocate", nil})
 					}
 				}
 			}
@@ -979,9 +980,9 @@ func (c *Ctx) ownSites(u FuncUnit) []ownSite {
 							if (p.borrowed || p.unknown) && !(p.otherField && !p.borrowed && !p.unknown) {
 								construct := ord.next("append to " + exprShape(info, s.Args[0]))
 								if ok, why := sliceOK(s.Args[0], s, st, true); ok {
-									sites = append(sites, ownSite{"MUT.grow", construct, s, Proved, why})
+									sites = append(sites, ownSite{"MUT.grow", construct, s, Proved, why, nil})
 								} else {
-									sites = append(sites, ownSite{"MUT.grow", construct, s, Undecided, "append can write into spare capacity of a backing array another value owns: " + why})
+									sites = append(sites, ownSite{"MUT.grow", construct, s, Undecided, "append can write into spare capacity of a backing array another value owns: " + why, nil})
 								}
 							}
 						}
@@ -989,9 +990,9 @@ func (c *Ctx) ownSites(u FuncUnit) []ownSite {
 						if len(s.Args) == 2 && isCellSlice(s.Args[0]) {
 							construct := ord.next("copy into " + exprShape(info, s.Args[0]))
 							if ok, why := sliceOK(s.Args[0], s, st, false); ok {
-								sites = append(sites, ownSite{"MUT.elem", construct, s, Proved, why})
+								sites = append(sites, ownSite{"MUT.elem", construct, s, Proved, why, nil})
 							} else {
-								sites = append(sites, ownSite{"MUT.elem", construct, s, Undecided, "copies into a cell slice: " + why})
+								sites = append(sites, ownSite{"MUT.elem", construct, s, Undecided, "copies into a cell slice: " + why, nil})
 							}
 						}
 					}
@@ -1018,7 +1019,7 @@ func (c *Ctx) ownSites(u FuncUnit) []ownSite {
 							break // individual variadic arguments are packed into a fresh array
 						}
 						if wi, isW := c.headerWrappers()[u.Obj]; isW && identObj(info, arg) == u.Obj.Type().(*types.Signature).Params().At(wi) {
-							sites = append(sites, ownSite{"MUT.view", ord.next(fn.Name() + " over parameter"), s, Proved, "constructor wrapper: the obligation is checked at every call site of " + u.Name()})
+							sites = append(sites, ownSite{"MUT.view", ord.next(fn.Name() + " over parameter"), s, Proved, "constructor wrapper: the obligation is checked at every call site of " + u.Name(), nil})
 							break
 						}
 						if isCellSlice(arg) {
@@ -1026,7 +1027,7 @@ func (c *Ctx) ownSites(u FuncUnit) []ownSite {
 							if p.borrowed || p.unknown {
 								construct := ord.next(fn.Name() + " over " + exprShape(info, arg))
 								v, d := a.viewVerdict(fc, u, s, arg, p, st, ownerOK)
-								sites = append(sites, ownSite{"MUT.view", construct, s, v, d})
+								sites = append(sites, ownSite{"MUT.view", construct, s, v, d, arg})
 							}
 						}
 					}
@@ -1080,9 +1081,9 @@ func (c *Ctx) ownSites(u FuncUnit) []ownSite {
 					case "Sort", "Stable", "Slice", "SliceStable", "SortFunc", "SortStableFunc", "Reverse":
 						construct := ord.next(fn.Pkg().Name() + "." + fn.Name() + " over " + exprShape(info, sl))
 						if ok, why := sliceOK(sl, s, st, false); ok {
-							sites = append(sites, ownSite{"MUT.elem", construct, s, Proved, why})
+							sites = append(sites, ownSite{"MUT.elem", construct, s, Proved, why, nil})
 						} else {
-							sites = append(sites, ownSite{"MUT.elem", construct, s, Undecided, "permutes a cell slice in place: " + why})
+							sites = append(sites, ownSite{"MUT.elem", construct, s, Undecided, "permutes a cell slice in place: " + why, nil})
 						}
 					}
 				}
